@@ -171,6 +171,12 @@ def run(ctx, rep):
                 if unit_enum_invariant(ctx, prog, rep):
                     rep.ok('P3', key, 'unreachable!() arm inside the RustEnum::Unit printer; RustEnum::Unit is only constructed after the all-variants-are-unit test (parse_enum)', site)
                     continue
+            # structural discharge: constant index under a dominating length test of the same collection
+            if s['kind'] == 'index':
+                why = len_guard(ctx, s)
+                if why:
+                    rep.ok('P2', key, 'guarded: ' + why, site)
+                    continue
             # table lookup
             ent = lookup(table, s, used_entries, prog)
             if ent is None:
@@ -185,6 +191,7 @@ def run(ctx, rep):
                 rep.fail('P2', key, f"input-reachable panic: `{s['snippet'][:100]}` in {s['fn']} — {ent['reason']}; reached via {path}", site)
         if fs == 'all':
             p4(ctx, prog, rep)
+            p5(ctx, rep)
     rep.extra['evaluations'] = total_sites
     rep.extra['feature_sets'] = fsets
 
@@ -273,6 +280,57 @@ def abstract(snippet):
     return ''.join(out)
 
 
+def len_guard(ctx, s):
+    """`xs[i]` with a literal i is in bounds when a dominating condition (if / match-arm guard) states `xs.len() == k` (k > i),
+    `xs.len() >= k` (k > i), `xs.len() > k` (k >= i) or, for i = 0, `!xs.is_empty()` about the very same collection."""
+    for f in ctx.astq['functions']:
+        if not s['file'].endswith(f['file']) or not (f['line'] <= s['line'] <= f.get('end_line', 10 ** 9)):
+            continue
+        for ix in f.get('indexes', []):
+            if ix.get('line') != s['line'] or ix.get('range'):
+                continue
+            iv = vt.strip(ix.get('index'))
+            if not (isinstance(iv, dict) and iv.get('k') == 'lit' and str(iv.get('v', '')).isdigit()):
+                continue
+            i = int(iv['v'])
+            base = vt.ckey(ix.get('base'))
+            conds = []
+            for fr in ix.get('guard', []):
+                if fr.get('k') == 'if' and not fr.get('neg'):
+                    conds.append(fr.get('c'))
+                if fr.get('k') == 'if' and fr.get('neg'):
+                    conds.append({'k': 'op', 'op': '!', 'args': [fr.get('c')]})
+                if fr.get('k') == 'arm' and fr.get('guard'):
+                    conds.append(fr['guard'])
+            for c in conds:
+                todo = [vt.unvar(c)]
+                while todo:
+                    x = todo.pop()
+                    if not isinstance(x, dict):
+                        continue
+                    if x.get('k') == 'op' and x.get('op') == '&&':
+                        todo.extend(vt.unvar(a) for a in x['args'])
+                        continue
+                    if x.get('k') == 'paren':
+                        todo.append(vt.unvar(x.get('v')))
+                        continue
+                    if x.get('k') == 'op' and x.get('op') in ('==', '>=', '>') and len(x.get('args', [])) == 2:
+                        l, r = vt.strip(x['args'][0]), vt.strip(x['args'][1])
+                        if isinstance(l, dict) and l.get('k') == 'call' and l.get('f') in ('len', 'count') and isinstance(r, dict) and r.get('k') == 'lit' and str(r.get('v', '')).isdigit():
+                            subj = l.get('recv')
+                            while isinstance(vt.strip(subj), dict) and vt.strip(subj).get('k') == 'call' and vt.strip(subj).get('f') in ('iter', 'chars') and vt.strip(subj).get('recv') is not None and l.get('f') == 'count':
+                                subj = vt.strip(subj)['recv']
+                            kk = int(r['v'])
+                            enough = (x['op'] in ('==', '>=') and kk > i) or (x['op'] == '>' and kk >= i)
+                            if enough and vt.ckey(subj) == base:
+                                return f"dominated by `{vt.show(x)[:60]}` on the indexed collection"
+                    if x.get('k') == 'op' and x.get('op') == '!' and i == 0:
+                        y = vt.strip(x['args'][0])
+                        if isinstance(y, dict) and y.get('k') == 'call' and y.get('f') == 'is_empty' and vt.ckey(y.get('recv')) == base:
+                            return 'dominated by a non-emptiness test of the indexed collection'
+    return None
+
+
 def lookup(table, s, used=None, prog=None):
     """Table entry for a site: same kind, file and (when given) enclosing function, same name-independent shape.
     An entry covers `count` sites (default 1) of its function; further look-alike sites are unclassified."""
@@ -355,6 +413,42 @@ def discharge(ctx, prog, cr, ent, s, frames):
         missing = [n for n in ent['needles'] if n not in txt]
         return (not missing), ('clap attributes ' + ', '.join(ent['needles']) + ' present in args.rs' if not missing else f'clap attribute(s) {missing} not found in args.rs')
     return False, f'unknown discharge {d}'
+
+
+def p5(ctx, rep):
+    """P5: the dependency collectors of topsort.rs recurse through the *name table* (a graph that may contain cycles:
+    self-referential and mutually recursive types are legal input), so each of them must enter its recursion only after
+    `seen.insert(<its own key>)` succeeded — the visited-set discipline that bounds the recursion depth by the number of
+    items.  Without it a type that reaches itself through two fields recurses until the stack overflows (process abort,
+    no diagnostic).  Structural recursion on a finite type tree (container arms of get_dependencies_from_type) needs no guard."""
+    fns = [f for f in ctx.fns(file='topsort.rs') if any('HashSet<String>' in str(q.get('ty') or '') for q in f['params'])]
+    names = {f['name'] for f in fns}
+    n = 0
+    for f in fns:
+        fx = ctx.x(f)
+        seen_p = next(q['name'] for q in f['params'] if 'HashSet<String>' in str(q.get('ty') or ''))
+        for c in fx['calls']:
+            cal = str(c.get('f') or '').split('::')[-1]
+            if cal not in names or c.get('recv') is not None:
+                continue
+            through_table = (f['name'] != 'get_dependencies_from_type') or cal != 'get_dependencies_from_type'
+            # the dispatcher get_dependencies only forwards one item to its collector
+            if f['name'] == 'get_dependencies':
+                continue
+            if not through_table:
+                continue
+            n += 1
+
+            def guards(fr):
+                cv = vt.unvar(fr.get('c'))
+                hit = isinstance(cv, dict) and cv.get('k') == 'call' and cv.get('f') == 'insert' and vt.show(vt.strip(cv.get('recv'))) == seen_p
+                if not hit and isinstance(cv, dict) and cv.get('k') == 'op' and cv.get('op') == '!':
+                    inner = vt.unvar(cv['args'][0])
+                    return isinstance(inner, dict) and inner.get('f') == 'insert' and vt.show(vt.strip(inner.get('recv'))) == seen_p and bool(fr.get('neg'))
+                return hit and not fr.get('neg')
+            ok = any(fr.get('k') == 'if' and guards(fr) for fr in c['guard'])
+            rep.check(ok, 'P5', f"{f['name']}->{cal}:visited-guard", f'entered only after {seen_p}.insert(..) succeeded', f"{f['name']} recurses into {cal} without first recording itself in `{seen_p}` (`if {seen_p}.insert(<own id>)`): a type that reaches itself through the item table (self-referential struct with two such fields, mutually recursive types) is walked again and again until the stack overflows — typeshare aborts without output or diagnostic", {'file': f['file'], 'line': c.get('line')})
+    rep.floor('P5', 'recursive collector calls through the item table', n, 5)
 
 
 def p4(ctx, prog, rep):
